@@ -52,6 +52,8 @@ TEXTS = [
     # block keywords in capitals, then names that only UPPER-CASE to them
     "BEGIN_GROUP = g\n a = 1\nEND_GROUP = g\nBEGIN_OBJECT = o\nEND_OBJECT\nEND\n",
     "beg\u0131n_group = 5\nBEG\u0131N_OBJECT = 6\nx = fal\u017fe\nEND\n",
+    # a stray comment delimiter in the first bare word of a text
+    "c = d*/\n", "c = */\nEND\n", "c = /*unfinished\n",
 ]
 PARSERS = ("PVL", "ODL", "PDS3", "ISIS", "default", "lenient-PVL", "lenient-ODL")
 # how the long-lived instance is called: directly, through pvl.loads/load with
